@@ -280,6 +280,10 @@ def leaf_case(ctx, rng, idx):
     forms = [('separate', dict(reduce=False, flattened=False)),
              ('flattened', dict(reduce=False, flattened=True)),
              ('reduced', dict(reduce=True))]
+    if kind in 'GLT':
+        # (reduce is documented to take priority over flattened)
+        forms += [('reduced', dict(reduce=True, flattened=False)),
+                  ('reduced', dict(reduce=True, flattened=True))]
     for fname, kw in forms:
         try:
             out = model.compute_sensitivities(arr, obs_in, dlogp_dpsi=dl,
